@@ -28,7 +28,17 @@ def run_property(prop: str, repo: str, tier: str, seed: int, evidence_dir=None, 
     mod = importlib.import_module("synlint.props.%s" % prop.lower())
     ctx = Ctx(repo, prop, tier=tier, seed=seed)
     ctx.only = only
-    mod.check(ctx)
+    refused = None
+    try:
+        mod.check(ctx)
+    except AnalysisError as e:
+        # rules that ran before the refusal may already have reported a specific construct: that verdict stands, the
+        # refusal of the remaining rules is recorded with it.  Without a finding the refusal is the outcome (exit 2).
+        known0 = load_known() if use_known else []
+        if not split_known(ctx.findings, known0)[1]:
+            raise
+        refused = str(e)
+        ctx.note("the remaining rules of %s could not be analysed on this tree (%s); the findings above were established before that point" % (prop, refused))
     if getattr(ctx, "inlined", None):
         seen = []
         for h, g, _l in ctx.inlined:
@@ -38,7 +48,14 @@ def run_property(prop: str, repo: str, tier: str, seed: int, evidence_dir=None, 
         ctx.note("helpers that do not exist on the reference tree were expanded in place before analysis: " + "; ".join(seen[:12]) + (" ..." if len(seen) > 12 else ""))
     # make sure call statistics are available for the evidence
     _ = ctx.graph
-    ctx.check_vacuity()
+    if refused is None:
+        try:
+            ctx.check_vacuity()
+        except AnalysisError as e:
+            known0 = load_known() if use_known else []
+            if not split_known(ctx.findings, known0)[1]:
+                raise
+            ctx.note("instance counts fell below the confirmed minimum (%s); the findings above stand" % e)
     known = load_known() if use_known else []
     listed, fresh = split_known(ctx.findings, known)
     out = []
